@@ -218,7 +218,7 @@ func epsPKCS8() []*epT {
 			}}
 	}
 	eps = append(eps,
-		plain("pkcs8.ParsePrivateKey[no password]", "p8-sm2", func() []byte { return must(smx509.MarshalPKCS8PrivateKey(kr.SM2EE())) },
+		plain("pkcs8.ParsePrivateKey[no-password]", "p8-sm2", func() []byte { return must(smx509.MarshalPKCS8PrivateKey(kr.SM2EE())) },
 			func(in []byte) error { _, _, err := pkcs8.ParsePrivateKey(in, nil); return err }),
 		plain("pkcs8.ParsePKCS8PrivateKeySM2", "p8-sm2", func() []byte { return must(smx509.MarshalPKCS8PrivateKey(kr.SM2EE())) },
 			func(in []byte) error { _, err := pkcs8.ParsePKCS8PrivateKeySM2(in); return err }),
